@@ -440,3 +440,41 @@ def kmeans_fit_loop(prefix, has_thr=True, has_max=True):
         sel = [c for c in sub if c.name == "%s.loop.%s" % (prefix, nm)]
         res += collapse(sel, "%s.loop.%s%s" % (prefix, nm, tag), note.replace("machine", "centroids"))
     return res
+
+
+class GridChunks:
+    """an arbitrary chunk grid of a 2-d Dask array: consecutive row blocks x
+    consecutive column blocks; to_delayed().ravel().tolist() lists the blocks in
+    row-major order (DESIGN §3)"""
+
+    def __init__(self, nrows, ncols, prefix="grid"):
+        self.rows = RowChunks(nrows, prefix + "r")
+        self.ctag, self.ncb, self.csz, self.coff = T.new_partition(ncols, prefix + "c")
+
+    def numblocks(self, a):
+        return (self.rows.nb, self.ncb)
+
+    def rechunk(self, spec):
+        if spec.get(1) in (-1, None) and set(spec) <= {1}:
+            return self.rows          # all columns in one block: a row partition
+        raise ModelError("rechunk %r" % (spec,))
+
+    def blocks(self, a):
+        rsz, roff, csz, coff, ncb = self.rows.sz, self.rows.off, self.csz, self.coff, self.ncb
+
+        def elem(i):
+            rb, cb = T.mk_floordiv(i, ncb), T.mk_mod(i, ncb)
+            return Arr((rsz(rb), csz(cb)), lambda j, d: a.fn(roff(rb) + j, coff(cb) + d), a.dtype, "numpy")
+        return SList(self.rows.nb * ncb, elem)
+
+
+def _row_numblocks(self, a):
+    return (self.nb,) + (ONE,) * (a.ndim - 1)
+
+
+def _row_rechunk(self, spec):
+    return self
+
+
+RowChunks.numblocks = _row_numblocks
+RowChunks.rechunk = _row_rechunk
